@@ -23,8 +23,8 @@ SchemeMatch == "contains"
 
 UpName(w) == UpKey(DropByte(w, 0), UpperMode)
 
-Range(f) == {f[i] : i \in DOMAIN f}
-BlackTags == Range(BlackTagSeq)
+RangeOf(f) == {f[i] : i \in DOMAIN f}
+BlackTags == RangeOf(BlackTagSeq)
 
 \* first entry of a (name, type) list with that name, or AttrNone
 TypeIn(seq, u) ==
